@@ -46,6 +46,33 @@ Theorem used_uri_keeps_declaration : forall sh ops k u n,
 Proof. exact used_uri_stays_declared. Qed.
 Print Assumptions used_uri_keeps_declaration.
 
+(* 5b. Histories that MIX namespace operations with selector-side operations (Selector.selectorText in place,
+      SelectorList.selectorText / appendSelector / [i]= / del, rule.selectorText, insertion and deletion of rule sets
+      at top level and inside @media).  `used` is a function of the current sheet, so delete_protected above already
+      speaks about the current selectors; in addition: *)
+(* a selector-side operation leaves the @namespace rules alone and every item it writes is resolved against the
+   sheet's current mapping (so resolve_binds_uri applies to it); an undeclared prefix makes resolve fail *)
+Theorem selector_ops_bind_uri : forall o sh,
+  nsl (fst (sstep o sh)) = nsl sh /\
+  forall it, In it (items_of (fst (sstep o sh))) -> In it (items_of sh) \/ exists pi, resolve (view sh) pi = Some it.
+Proof. exact selector_op_spec. Qed.
+Print Assumptions selector_ops_bind_uri.
+(* in every sheet reachable from a parse by ANY mixed history, every selector item with a (non-empty) URI is
+   declared by some @namespace rule: no interleaving of selector edits and namespace deletions orphans a used URI *)
+Theorem used_uri_keeps_declaration_mixed : forall stmts ops k u n,
+  In (IPair k (UStr u) n) (items_of (mrun ops (fst (parse stmts)))) -> u <> [] ->
+  exists r, In r (nsl (mrun ops (fst (parse stmts)))) /\ uri r = u.
+Proof. exact used_uri_declared_mixed. Qed.
+Print Assumptions used_uri_keeps_declaration_mixed.
+Theorem bound_invariant : forall ops sh, Bound sh -> Bound (mrun ops sh).
+Proof. exact mrun_bound. Qed.
+Print Assumptions bound_invariant.
+Theorem delete_protected_mixed : forall sh i r k n,
+  nth_error sh i = Some (RNs r) -> In (IPair k (UStr (uri r)) n) (items_of sh) -> cnt (uri r) sh = 1 ->
+  mstep (MN (ODelRule i)) sh = (sh, Raise ENoMod).
+Proof. exact delete_protected_bound. Qed.
+Print Assumptions delete_protected_mixed.
+
 (* 6. sheet.namespaces = the mapping of the @namespace rules.
       Full statement (REFUTED on the current tree, open finding C15-redeclare-prefix-by-rule-object):
         forall stmts ops, let sh := run ops (fst (parse stmts)) in view sh = rev (ns_pairs sh)
@@ -114,4 +141,22 @@ Qed.
 Example delete_protected_nonvacuous :
   let sh := fst (parse wB) in
   nth_error sh 0 = Some (RNs (mk_text (s "p") (s "u1"))) /\ used (s "u1") sh = true /\ cnt (s "u1") sh = 1.
+Proof. vm_compute. repeat split. Qed.
+
+(* a selector is re-targeted in place to an unused namespace, which then cannot be deleted any more (neither through
+   the mapping nor by deleteRule); an undeclared prefix is rejected; a rule set inserted into @media is bound through
+   the sheet's mapping *)
+Example mixed_history :
+  let sh0 := fst (parse [SNs (s "q") (s "u1"); SNs [] (s "d"); SStyle [PSel KType FNone (s "e")];
+                         SMedia [[PSel KType FEmpty (s "b")]]]) in
+  let ops := [MS (SReplace (ATop 2) 0 (PSel KNeg (FPfx (s "q")) (s "x")));
+              MS (SReplace (ATop 2) 0 (PSel KType (FPfx (s "zz")) (s "x")));
+              MN (ODel (s "q")); MN (ODelRule 0);
+              MS (SInsInner 3 [PSel KType FNone (s "y"); PSel KAttr (FPfx (s "q")) (s "a")] (Some 0))] in
+  map (fun n => snd (mstep (nth n ops (MN (ODelRule 9))) (mrun (firstn n ops) sh0))) [0; 1; 2; 3; 4]
+    = [Ok; Raise ENamespace; Raise ENoMod; Raise ENoMod; Ok]
+  /\ pairs (mrun ops sh0) =
+      [IPair KNeg (UStr (s "u1")) (s "x"); IPair KType (UStr (s "d")) (s "y"); IPair KAttr (UStr (s "u1")) (s "a");
+       IPair KType (UStr []) (s "b")]
+  /\ pairs (reparse (mrun ops sh0)) = pairs (mrun ops sh0).
 Proof. vm_compute. repeat split. Qed.
